@@ -96,6 +96,20 @@ def explore(ctx):
             s = ["park/MakeArg/1", "feednowait/" + (scn.feed_call(10, 100) if rng.chance(1, 2) else scn.feed_notify(100))[5:], "waitpark/MakeArg",
                  "close/nowait", "waitdone", "settle", "release/MakeArg", "settle", "sleep/5", "settle"]
             lines.append(scn.line("scn", "s%d" % n, s, extra="nt=1 family=close-while-decoding-request")); n += 1
+        # cancellation frames that name no call of the peer (negative sequence numbers) while notification handlers run
+        for _ in range({"quick": 8, "thorough": 80, "search": 20}[tier]):
+            m = 1 + rng.below(3)
+            s = []
+            for i in range(m):
+                s.append(scn.feed_notify(100 + i))
+            s.append("waithandlers/%d" % m)
+            for _ in range(1 + rng.below(3)):
+                s.append(scn.feed_cancel(-1 - rng.below(4)))
+            s += ["settle", "sleep/2", "settle"]
+            for i in range(m):
+                s.append(scn.finish(i, 100 + i))
+            s.append("settle")
+            lines.append(scn.line("scn", "s%d" % n, s, extra="nt=1 family=cancel-naming-no-call")); n += 1
     if not ctx.get("replay"):
         k = 0
         for rep in range({"quick": 2, "thorough": 20, "search": 4}[tier]):
